@@ -327,6 +327,8 @@ def enc_node(obj, table):
     if isinstance(obj, ts.Task):
         if type(obj) is not ts.Task:
             raise Unsupported(type(obj).__name__)
+        if obj.func not in FUNCS:
+            raise Unsupported("task with a function outside the modelled family (e.g. a fused subgraph)")
         return [Sym("task"), FUNCS.index(obj.func), [enc_node(a, table) for a in obj.args],
                 [[k, enc_node(v, table)] for k, v in obj.kwargs.items()]]
     if isinstance(obj, ts.Alias):
